@@ -103,9 +103,12 @@ def parse_harness(out):
 
 
 class Scenario:
-    def __init__(self, sid, mods, op, big, base, pad=None, links=()):
+    def __init__(self, sid, mods, op, big, base, pad=None, links=(), parent_endian=False):
         self.links = tuple(links)
+        self.parent_endian = parent_endian
         self.pad = pad; self.env = ({"LOGNAME": "u" * pad, "HOSTNAME": "h"} if pad else None)
+        if parent_endian:
+            self.env = dict(self.env or {}, C12_PARENT_ENDIAN="1")
         self.sid = sid; self.mods = sorted(mods); self.op = op; self.big = dict(big)
         self.dir = os.path.join(base, "s%d" % sid)
         self.tmpl = os.path.join(self.dir, "tmpl")
@@ -115,6 +118,11 @@ class Scenario:
         self.include = (op == "include")
         if self.include:
             self.mods = [0, 4]          # the operation itself changes the parent and the new fragment
+        if parent_endian:
+            # the root's byte order changes: the children that inherited it must be rewritten too (they restate it),
+            # and stay pending until they are
+            self.frs = list(range(NFRAG0)); self.pending = list(range(NFRAG0))
+        self.pend = set(getattr(self, "pending", self.mods))
         self.n = 0
 
     def modarg(self):
@@ -124,7 +132,7 @@ class Scenario:
 
     def desc(self):
         return {"layout": [r for r, _ in LAYOUT], "modified_fragments": self.mods, "operation": self.op,
-                "extra_fields_per_fragment": self.big, "symlinked_format_files": [LAYOUT[i][0] for i in self.links],
+                "extra_fields_per_fragment": self.big, "root_byte_order_changed_before_the_flush": self.parent_endian, "symlinked_format_files": [LAYOUT[i][0] for i in self.links],
                 "how": "harness/C12/shim -r DIR [-k K | -f K:ERRNO] -- harness/C12/flush run DIR %s %s  (DIR built by checks/C12.py make_template)" % (self.op, self.modarg())}
 
     def work(self, tag):
@@ -318,6 +326,9 @@ def main():
     # fragments whose format file is a symbolic link (the flush must still publish by rename, never write through the link)
     scs.append(Scenario(len(scs), {2}, "metaflush", {2: 150}, base, links={2}))
     scs.append(Scenario(len(scs), {1, 2}, "close", {}, base, links={1}))
+    # a parent whose change forces its children to be rewritten (they must restate byte order they used to inherit)
+    scs.append(Scenario(len(scs), {0}, "metaflush", {}, base, parent_endian=True))
+    scs.append(Scenario(len(scs), {0, 2}, "close", {}, base, parent_endian=True))
     # sweep the stdio block boundary over many byte positions of the text (only the write calls are failed there):
     # which fprintf/fputs happens to flush the block decides which result check has to notice a failed write
     nsweep = 12 if not chk.thorough else 48
@@ -385,7 +396,7 @@ def main():
         exp_flags_ok = True
         if h["first"]["flags"] is not None:
             for i in range(len(h["first"]["flags"])):
-                want = 0 if i in sc.frs else (1 if i in sc.mods else 0)
+                want = 0 if i in sc.frs else (1 if i in sc.pend else 0)
                 if h["first"]["flags"][i] != want:
                     exp_flags_ok = False
         sc.nomodel = False
@@ -605,7 +616,7 @@ def main():
                 pend = flags[i] if i < len(flags) else None
                 if sc.include and len(flags) <= NFRAG0:
                     continue             # gd_include itself failed: nothing is pending
-                if cls_mid[n] == "O" and pend != (1 if i in sc.mods else 0):
+                if cls_mid[n] == "O" and pend != (1 if i in sc.pend else 0):
                     problems.append(("pending-change-lost", "fragment %d still has its old file but its modified flag is %s" % (i, pend)))
                 if cls_mid[n] == "N" and pend != 0:
                     problems.append(("flag-not-cleared", "fragment %d was replaced but its modified flag is %s" % (i, pend)))
@@ -641,7 +652,7 @@ def main():
                     mc = mlate; want = got        # the failed write was swallowed by an unchecked stdio call
                 mflags = [first["flags"][i] for i in sc.frs] if first["flags"] is not None else None
                 # the flush never sets a flag: a fragment rewritten by force without pending changes stays unflagged
-                mc = dict(mc, mod=[m if i in sc.mods else 0 for m, i in zip(mc["mod"], sc.frs)])
+                mc = dict(mc, mod=[m if i in sc.pend else 0 for m, i in zip(mc["mod"], sc.frs)])
                 mtm = len([x for x in mc["tmps"] if x != "-"])
                 if got != want:
                     model_fail(sc, "%s, %s at call %d (%s): real trace %s, model trace %s" % (sc.op, en, k, call.name, got, want), extra)
@@ -700,7 +711,7 @@ def main():
             continue
         flags = first["flags"] or []
         for n, i in enumerate(sc.frs):
-            want = (1 if i in sc.mods else 0) if cls_mid[n] == "O" else 0
+            want = (1 if i in sc.pend else 0) if cls_mid[n] == "O" else 0
             if sc.include and len(flags) <= NFRAG0:
                 continue                 # gd_include itself failed: nothing is pending
             if i < len(flags) and flags[i] != want:
